@@ -1,6 +1,9 @@
 """C17 — HSTRP/RRS handler acknowledges each peer message exactly once, whatever the history (DESIGN §5 C17).
 
 Real code: HSTRPDatagramProtocol / RRSDatagramProtocol with recording fake transports, in-process.
+Round 5: constant tables (Enum members, dict-literal keys) of every module the handlers parse with are read with `ast` on every run
+(props/hytera_tables.py), compared with the committed catalogue c17.enums.json (`--rebaseline` regenerates it) and swept through
+datagram_received of both handler classes (run_tables below).
 Model: lean/DmrVerif/Model/HstrpHandler.lean through drv_c17; its input is the abstraction of what the
 real HSTRP.from_bytes returns for each datagram (None on any exception) — the harness parses nothing itself.
 
@@ -17,7 +20,13 @@ import os
 import socket
 import subprocess
 
+if __name__ == "__main__":  # maintainer switch `/venv/bin/python harness/props/c17.py --rebaseline` (see the end of the file)
+    import sys
+
+    sys.path.insert(0, os.path.dirname(os.path.dirname(os.path.abspath(__file__))))
+
 from common import BIN, impl_error
+from props import hytera_tables as HT
 
 PROP = "C17"
 MODULES = ["C17"]
@@ -758,6 +767,9 @@ CORPUS = [
     # option blocks at their smallest: one value-less option (RTP) and nothing behind it; one option then a payload
     ("single-valueless-option", [hstrp(0x24, opts=b"\x01\x00"), hstrp(0x20, sn=0x13, opts=b"\x01\x00"), hstrp(0x28, sn=2, opts=b"\x01\x00"),
                                  hstrp(0x20, sn=3, opts=b"\x01\x00", rrs=(3, R101)), hstrp(0x20, sn=4, opts=b"\x04\x01\x02", other=RCP_CALL)]),
+    # the repaired defect (160c61b): a REJECT whose RCP payload (SendTalkerAliasRequest, three octets declared UTF-16)
+    # cannot be printed made the handler raise inside its log call, before the acknowledgement
+    ("reject-with-unprintable-alias", [Dg(bytes.fromhex("3242001090350252080e0000fd080000fa18230003036162636403"))]),
     ("two-octet-sn", [hstrp(0x04, sn=0x0100), hstrp(0x08, sn=0x1234), hstrp(0x00, sn=0xFFFF), hstrp(0x20, sn=0xABCD, opts=OPTS, rrs=(3, R100)), hstrp(0x10, sn=0x0101)]),
 ]
 
@@ -1017,6 +1029,285 @@ def random_world(ctx, rng, pairs, i):
     return w, length, cfgs
 
 
+# ------------------------------------------------------------------------------------------------
+# round 5: constant tables (Enum members, dict-literal keys, class-level constants) of every module the handlers parse with
+# (props/hytera_tables.py).  No function statement changes when an enum member's value changes, a member is added or removed:
+# the tables are read with `ast` from the CURRENT source on every run and compared with the committed catalogue
+# harness/props/c17.enums.json (regenerate after an intended change: `/venv/bin/python harness/props/c17.py --rebaseline`).
+# The catalogue only directs the search and says which wire values were documented when it was taken — "well-formed by
+# construction" for a payload means: the hand-written frame of an implemented message kind whose enum-typed fields carry
+# documented values (or any value, where the catalogue says unknown values fold onto a reserved member; or any raw opcode the
+# catalogue does not list, which travels as RCP UnknownService).  A difference is never reported by itself: the verdict is the
+# ack-exactly-once oracle's on a concrete datagram delivered to a live handler.
+
+TABLE_TYPES = [(0x00, False), (0x20, True), (0x04, False), (0x08, False), (0x10, False), (0x24, True), (0x28, True), (0x01, False), (0x21, True), (0x02, False)]
+WORLD_LEN = 24  # deliveries per world: a failing script stays short, the history before a delivery still varies
+TABLE_HANDLERS = [("rrs", False), ("base", True)]
+
+
+def c17_expectation(cat, site, v, own):
+    """the catalogue documents the frame with v in this field: the handler has to read (and acknowledge) the message that carries it"""
+    if site.cls == HT.RAW:
+        return True
+    if site.label == "service":
+        return v == own
+    if site.opcode:
+        return v == own or (cat.folds(site.cls) and v not in cat.values(site.cls))
+    return v in cat.values(site.cls) or cat.folds(site.cls)
+
+
+class TableWorlds:
+    """deliveries of table datagrams to live handlers of both classes: the datagrams are collected and every WORLD_LEN of them
+    are delivered to a fresh world of each class (one world after the other: the model's stream holds one world at a time)"""
+
+    def __init__(self, ctx, pairs, flush, seed):
+        self.ctx, self.pairs, self.flush, self.seed = ctx, pairs, flush, seed
+        self.buf = []
+        self.count = 0
+        self.sn = 0x0100
+
+    def next_sn(self):
+        self.sn = (self.sn * 257 + 4099) % 65536
+        return self.sn
+
+    def deliver(self, frame, tb, opt, must, rrs=None, sn=None, opts=None):
+        sn = self.next_sn() if sn is None else sn
+        opts = (OPTS if opt else b"") if opts is None else opts
+        data = raw_hstrp(tb, sn, opts, frame)
+        self.buf.append(Dg(data, {"tb": tb, "sn": sn, "version": 0, "opts": opts, "rrs": rrs} if must else None))
+        if len(self.buf) >= WORLD_LEN:
+            self.close()
+
+    def close(self):
+        if not self.buf:
+            return
+        for kind, active in TABLE_HANDLERS:
+            c = self.count
+            self.count += 1
+            try:
+                w = make_world(self.ctx, self.pairs, (kind, active, True, PORTS[(c + self.seed) % len(PORTS)], c % 4), (c % 3 == 1, 0))
+            except SkipHistory:
+                continue
+            fl = self.ctx.failures
+            for dg in self.buf:
+                n0 = len(fl)
+                w.rx("A", dg)
+                if len(fl) > n0 and len(w.script) > 3:
+                    # the same datagram alone to a fresh handler: if that fails too, the short script is reported first
+                    n1 = len(fl)
+                    try:
+                        make_world(self.ctx, self.pairs, (kind, active, True, 50000, 0), (False, 0)).rx("A", dg)
+                    except SkipHistory:
+                        pass
+                    short = fl[n1:]
+                    del fl[n1:]
+                    fl[n0:n0] = short
+                    break  # the model's stream now holds the short world
+            else:
+                w.query("A")
+            self.ctx.count(cfg_key((kind, active, True)), len(self.buf))
+        self.buf = []
+        if len(self.pairs) > 300000:
+            self.flush("hstrp.tables")
+
+
+class FastHandler:
+    """one long-lived handler for the 16-bit sweeps: the delivery and the ack-exactly-once reading only; a datagram it objects to is
+    delivered again in a fresh world, where the full oracle records the failing script"""
+
+    def __init__(self, kind, active):
+        self.kind, self.active = kind, active
+        self.log = []
+        self.h = construct(kind, active, 50000, 0)
+        self.h.connection_made(FakeTransport(0, self.log))
+        self.n = 0
+
+    def rx(self, data, must, tb, sn, opts):
+        h, log = self.h, self.log
+        del log[:]
+        before = (h.hstrp_connected, h.sn)
+        self.n += 1
+        try:
+            ret = h.datagram_received(data, ADDR_A)
+        except BaseException as e:  # noqa
+            return f"raised {type(e).__name__}"
+        try:
+            pdu = L["HSTRP"].from_bytes(data)
+        except BaseException:  # noqa
+            pdu = None
+        if not isinstance(pdu, L["HSTRP"]):
+            if must:
+                return "well-formed message not read"
+            return None if (not log and ret == (False, None) and (h.hstrp_connected, h.sn) == before) else "a datagram the parser refuses caused output / a state change"
+        head = b"2B" + bytes([0, (tb | 0x01) & ~0x10]) + sn.to_bytes(2, "big")
+        if len(log) != 1 or log[0][1] not in (head + opts, head) or log[0][2] != ADDR_A or (h.hstrp_connected, h.sn) != before:
+            return "a data message was not answered by exactly one acknowledgement with its S/N and no payload"
+        return None
+
+
+def run_tables(ctx, pairs, flush, enough):
+    rd = HT.Reading(PROP, HT.roots_handlers())
+    cat, cur, diff, cand, changed = rd.cat, rd.cur, rd.diff, rd.cand, rd.changed
+    ctx.count("table:enum-classes-harvested", sum(1 for _ in cur.all_enums()))
+    ctx.count("table:enum-members-harvested", sum(len(e["members"]) for _r, _q, e in cur.all_enums()))
+    ctx.count("table:dict-key-tables-harvested", sum(len(m["dicts"]) for m in cur.mods.values()))
+    ctx.count("table:differences-from-catalogue", len(diff))
+    if diff:
+        ctx.notes.append("constant tables differ from the catalogue c17.enums.json (directs the sweeps only): " + rd.describe())
+    for need in ("RCPOpcode", "RRSTypes", HT.SERVICE_ENUM, "HSTRPOptionType"):
+        if cat.enum(need) is None:
+            raise RuntimeError(f"the catalogue harness/props/c17.enums.json has no table {need}: regenerate it (--rebaseline)")
+    seed = ctx.seed
+    tw = TableWorlds(ctx, pairs, flush, seed)
+    ip_a = tuple(HT.IP_A)
+
+    def rrs_of(k, frame):
+        # what the oracle needs to know of a registration message: opcode and radio address as built
+        return (frame[2], ip_a) if k.svc == "RRS" else None
+
+    # ---- A: the documented frame of every implemented message kind, plain and reliable, in every message type
+    base = {}
+    for k in HT.KINDS:
+        for rel in (False, True):
+            f = k.frame(cat, reliable=rel)
+            if f is None:
+                raise RuntimeError(f"the catalogue lacks a table the kind {k.name} needs: regenerate it (--rebaseline)")
+            if not rel:
+                base[k.name] = f
+            for tb, opt in TABLE_TYPES:
+                if enough():
+                    break
+                tw.deliver(f, tb, opt, True, rrs_of(k, f))
+                ctx.count("table:documented-kind-frame")
+                ctx.case(("table-kind", k.name, rel, tb))
+    # ---- B: every documented member of every enum in every field where it is parsed (three message types each, rotating)
+    j = 0
+    for k in HT.KINDS:
+        for site in k.sites():
+            if site.opcode or site.label == "service":
+                continue
+            vals = list(cat.members(site.cls)) + [(n, v) for n, v in rd.now_members(site.cls) if v not in cat.values(site.cls)]
+            for name, v in vals:
+                if v >= site.space or enough():
+                    continue
+                must = c17_expectation(cat, site, v, None)
+                f = site.put(base[k.name], v)
+                for i in range(3):
+                    tb, opt = TABLE_TYPES[(j + i * 3) % len(TABLE_TYPES)]
+                    tw.deliver(f, tb, opt, must, rrs_of(k, f))
+                j += 1
+                ctx.count("table:member-in-field")
+                ctx.case(("table-member", site.name(), v))
+    # ---- C: directed by the differences: every value that is new, gone or changed (±1) in every field of every kind, as raw
+    #         pass-through opcode, as option type, as sequence number
+    opt_names = {v: n for n, v in cat.members("HSTRPOptionType")}
+    for v, why in sorted(cand.items()):
+        if enough():
+            break
+        for k in HT.KINDS:
+            own_svc, own_op = cat.value_of(HT.SERVICE_ENUM, HT.SVC[k.svc][0]), cat.value_of(k.op_enum, k.op_name)
+            for site in k.sites():
+                if v >= site.space:
+                    continue
+                must = c17_expectation(cat, site, v, own_svc if site.label == "service" else own_op)
+                f = site.put(base[k.name], v)
+                for tb, opt in TABLE_TYPES[:4]:
+                    tw.deliver(f, tb, opt, must, rrs_of(k, f) if must else None)
+                ctx.count("table:difference-directed-datagram", 4)
+                ctx.case(("table-cand", site.name(), v))
+        must = v not in cat.values("RCPOpcode") and cat.folds("RCPOpcode")
+        for pl in HT.PASS_PAYLOADS:
+            for rel in (False, True):
+                f = HT.pass_frame(cat, v, pl, rel)
+                for tb, opt in TABLE_TYPES[:4]:
+                    tw.deliver(f, tb, opt, must)
+                ctx.count("table:difference-directed-pass-through", 4)
+                ctx.case(("table-cand-pass", v, pl, rel))
+        if v < 128:
+            d = bytes([0x11] * HT.OPTION_LEN.get(opt_names.get(v), 1))
+            for chain in ([(v, d)], [(v, d), (4, b"\x02")]):
+                for tb in (0x20, 0x24, 0x28):
+                    tw.deliver(base["RCP.CallRequest"] if tb == 0x20 else b"", tb, True, v in opt_names, opts=HT.tlv(chain))
+        for tb, opt in TABLE_TYPES[:4]:
+            f = base["RRS.RadioRegistrationRequest"] if opt else b""
+            tw.deliver(f, tb, opt, True, (f[2], ip_a) if f else None, sn=v)
+    # ---- D: every value of every 8-bit field (the service field once per service); data messages without / with options by turns
+    seen_service = set()
+    for k in HT.KINDS:
+        own_svc, own_op = cat.value_of(HT.SERVICE_ENUM, HT.SVC[k.svc][0]), cat.value_of(k.op_enum, k.op_name)
+        for site in k.sites():
+            if site.width != 1 or enough():
+                continue
+            if site.label == "service":
+                if k.svc in seen_service:
+                    continue
+                seen_service.add(k.svc)
+            for v in range(site.space):
+                must = c17_expectation(cat, site, v, own_svc if site.label == "service" else own_op)
+                f = site.put(base[k.name], v)
+                tb, opt = TABLE_TYPES[(v + seed) % 2]
+                tw.deliver(f, tb, opt, must, rrs_of(k, f) if must else None)
+                ctx.count("table:8-bit-field-value")
+                ctx.case(("table-8", site.name(), v), nontrivial=must)
+    # ---- E: all 128 option types in the option block of a data / connect / close message
+    for v in range(128):
+        if enough():
+            break
+        must = v in opt_names
+        d = bytes([0x11] * HT.OPTION_LEN.get(opt_names.get(v), 1))
+        for ci, chain in enumerate(([(v, d)], [(v, d), (4, b"\x02")], [(3, b"\x00\x01\x86\x9f"), (v, d)])):
+            tb = (0x20, 0x24, 0x28)[(v + ci) % 3]
+            tw.deliver(base["RCP.CallRequest"] if tb == 0x20 else b"", tb, True, must, opts=HT.tlv(chain))
+            ctx.count("table:hstrp-option-type")
+            ctx.case(("table-opt", v, ci), nontrivial=must)
+    tw.close()
+    flush("hstrp.tables")
+    # ---- F: the 16-bit fields: raw RCP opcode (pass-through), LP opcode and result, the four fields of the repeater broadcast
+    #         status — the seed-rotated share (all of it when the field's table differs / thorough) + the neighbourhood of every
+    #         catalogue entry, on one long-lived handler of each class
+    parts = 16 if ctx.thorough() else min(16, ctx.boost)
+    fast = [FastHandler(kind, active) for kind, active in TABLE_HANDLERS]
+    for k in HT.KINDS:
+        if k.svc == "RRS":
+            continue  # registration traffic changes the handler's own state: swept above through the full oracle (8-bit fields only)
+        own_op = cat.value_of(k.op_enum, k.op_name)
+        for site in k.sites():
+            if site.width != 2 or site.cls == HT.RAW or enough():
+                continue
+            if site.opcode and k.svc == "RCP" and k.op_name != "CallRequest":
+                continue
+            vals = list(HT.share16(seed, 16 if site.cls in changed else parts))
+            chosen = set(vals)
+            vals += sorted(HT.neighbourhood(cat.values(site.cls) | rd.now_values(site.cls)) - chosen)
+            ctx.count(f"table:16-bit-field-share:{site.name()}", len(vals))
+            f0 = base[k.name]
+            for v in vals:
+                must = c17_expectation(cat, site, v, own_op)
+                f = site.put(f0, v)
+                tb, opts = (0x20, OPTS) if (v >> 1) & 1 else (0x00, b"")
+                sn = (v * 31 + 7) % 65536
+                data = raw_hstrp(tb, sn, opts, f)
+                ctx.case(("table-16", site.name(), v), nontrivial=must)
+                for fh in fast:
+                    bad = fh.rx(data, must, tb, sn, opts)
+                    if bad is None:
+                        continue
+                    # again in a fresh world: the full oracle records the script
+                    n0 = len(ctx.failures)
+                    try:
+                        w = make_world(ctx, pairs, (fh.kind, fh.active, True, 50000, 0), (False, 0))
+                        w.rx("A", Dg(data, {"tb": tb, "sn": sn, "version": 0, "opts": opts, "rrs": None} if must else None))
+                        if len(ctx.failures) == n0:
+                            w.fail("table-sweep", f"{bad} (on a handler that had seen {fh.n} datagrams of this sweep before; a fresh handler reads it)", expected="exactly one acknowledgement", actual=bad)
+                    except SkipHistory:
+                        pass
+                    if enough():
+                        break
+                if enough():
+                    break
+    flush("hstrp.tables")
+
+
 def run(ctx):
     global L
     saved = {}
@@ -1058,7 +1349,15 @@ def _run(ctx):
         "mode combinations; every interleaving up to length 3 of 6 datagram classes over two live instances (instance "
         "isolation); random scripts up to 200 operations with 1-4 live handlers of random configuration, random type bits / "
         "S/N / options / RRS opcodes / radio ids, truncation, 1-3 bit flips, varying sender addresses, logging on/off, and "
-        "interleaved events. The oracle reads the datagram as it was built, not the library's parse; the model input is the "
+        "interleaved events. Round 5, constant tables: every Enum member / dict-literal key / class constant of the handler modules, "
+        "okdmr/dmrlib/hytera/pdu/*.py and what they import is read with ast from the current source and compared with the catalogue "
+        "c17.enums.json (direction only); delivered to live handlers of both classes: the hand-written frame of each of the 40 implemented "
+        "RRS / LP / TMP / RCP message kinds (plain and reliable) in 10 message types, every documented member of every enum in every field "
+        "where it is parsed, every value of every 8-bit field, all 128 option types, the seed-rotated sixteenth (thorough: all) of 0..65535 "
+        "plus the neighbourhood of every catalogue entry in each 16-bit field (raw RCP opcode = UnknownService pass-through, LP opcode / "
+        "result, the four fields of the repeater broadcast status), and every value that differs from the catalogue (old, new, each +-1) in "
+        "every field of every kind, as raw opcode, option type and S/N. "
+        "The oracle reads the datagram as it was built, not the library's parse; the model input is the "
         "abstraction of what the real HSTRP.from_bytes returns. Non-trivial = the datagram parses / an event; distinct = "
         "distinct (configuration, start state, operation sequence)"
     )
@@ -1075,7 +1374,11 @@ def _run(ctx):
         "'an acknowledgement' = a message with the ack bit that is not heartbeat-class",
         "two composed handlers: heartbeats are echoed by design while connected, so an exchange started by a heartbeat between "
         "two connected handlers does not end; every other exchange ends after one reply",
-        "well-formed = type octet < 64, documented option types, one of the five RRS opcodes or the RCP test vector as payload",
+        "well-formed = type octet < 64, documented option types, one of the five RRS opcodes or the RCP test vector as payload; for the table sweeps: the "
+        "hand-written HDAP frame (props/hytera_tables.py KINDS) of an implemented message kind whose enum-typed fields carry values the catalogue c17.enums.json "
+        "documents (any value where the catalogued enum folds unknown values onto a reserved member; any raw RCP opcode the catalogue does not list: UnknownService "
+        "pass-through). Catalogued-but-unimplemented opcodes (about 100 RCP, 20 LP, 4 TMP) are outside: the unchanged parser raises on them and the datagram is dropped",
+        "the catalogue is regenerated by `/venv/bin/python harness/props/c17.py --rebaseline` after an intended change of a table; a difference from it is never a verdict",
         "be_active_peer and port are stored configuration that datagram handling never reads (config_irrelevant); connection_lost counts as a close for the connected flag",
     ]
     pairs = []
@@ -1103,6 +1406,8 @@ def _run(ctx):
                 continue
             ctx.case(("corpus", name, kind, active, tr), sample={"corpus": name, "datagrams": [d.data.hex() for d in seq]} if ci == 0 else None)
     flush("hstrp.corpus")
+    # ---- round 5: constant tables read from the current source, every value that matters in every field of every message kind
+    run_tables(ctx, pairs, flush, enough)
     # ---- two composed handlers (ping-pong): class x S/N variant x datagram class x connected flags x be_active_peer of both
     for kind in KINDS:
         for variant in (0, 1):
@@ -1308,3 +1613,14 @@ def replay(obj):
         print("property check:", k)
     print("expected:", f.get("expected"), "actual:", f.get("actual"))
     return 1 if c.failures else 0
+
+
+if __name__ == "__main__":
+    # maintainer switch: after an INTENDED change of an enum / dict table of the modules the handlers parse with, make the current tables the catalogue
+    import sys
+
+    if sys.argv[1:] == ["--rebaseline"]:
+        print("written", HT.rebaseline(PROP, HT.roots_handlers()))
+    else:
+        print("usage: /venv/bin/python harness/props/c17.py --rebaseline   (the check itself runs through harness/check.py C17)")
+        sys.exit(2)
